@@ -5,6 +5,7 @@ package main
 import (
 	"fmt"
 	"go/ast"
+	"go/constant"
 	"go/token"
 	"go/types"
 	"math/big"
@@ -101,6 +102,11 @@ func (e *specEnv) eval(s *SExpr) T {
 			return e.fail("bad number %q", s.Name)
 		}
 		return mkMath(bigLit(bi))
+	case "flt":
+		cv := constant.MakeFromLiteral(s.Name, token.FLOAT, 0)
+		n := "flt_" + sanitize(cv.ExactString())
+		x.d.declareConst(n, "Flt")
+		return T{S: n, Ty: types.Typ[types.Float64]}
 	case "str":
 		return x.strLit(s.Name, tyString)
 	case "true":
@@ -168,12 +174,26 @@ func (e *specEnv) eval(s *SExpr) T {
 			lo = e.eval(s.Args[1])
 		}
 		var hi T
+		if base.Ty != nil {
+			if at, ok := base.Ty.Underlying().(*types.Array); ok {
+				if s.Args[2] != nil {
+					hi = e.eval(s.Args[2])
+				} else {
+					hi = mkMath(fmt.Sprint(at.Len()))
+				}
+				return T{S: fmt.Sprintf("(mk-slc %s %s (- %s %s))", base.S, lo.S, hi.S, lo.S), Ty: types.NewSlice(at.Elem())}
+			}
+		}
 		if s.Args[2] != nil {
 			hi = e.eval(s.Args[2])
 		} else {
 			hi = mkMath(app("slc-len", base.S))
 		}
-		return T{S: fmt.Sprintf("(mk-slc (slc-arr %s) (+ (slc-off %s) %s) (- %s %s))", base.S, base.S, lo.S, hi.S, lo.S), Ty: base.Ty}
+		ln := fmt.Sprintf("(- %s %s)", hi.S, lo.S)
+		if lo.S == "0" {
+			ln = hi.S
+		}
+		return T{S: fmt.Sprintf("(mk-slc %s %s %s)", slcArr(base.S), x.slcIdx(base.S, lo.S), ln), Ty: base.Ty}
 	case "quant":
 		frame := map[string]T{}
 		var decls []string
@@ -229,6 +249,14 @@ func (e *specEnv) evalIdent(name string) T {
 		return v
 	}
 	// hidden range index / visited set
+	if strings.HasPrefix(name, "rangecoll") {
+		var n int
+		if _, err := fmt.Sscanf(name, "rangecoll%d", &n); err == nil {
+			if g, ok := x.frame().specScope.rangeIdx[-n]; ok {
+				return e.cur().ghost[g]
+			}
+		}
+	}
 	if strings.HasPrefix(name, "rangeidx") || strings.HasPrefix(name, "visited") {
 		fr := x.frame()
 		var n int
@@ -419,7 +447,7 @@ func (e *specEnv) evalIndex(base, idx T) T {
 	}
 	switch u := base.Ty.Underlying().(type) {
 	case *types.Slice:
-		return T{S: fmt.Sprintf("(select (slc-arr %s) (+ (slc-off %s) %s))", base.S, base.S, idx.S), Ty: u.Elem()}
+		return T{S: slcAt(base.S, idx.S), Ty: u.Elem()}
 	case *types.Array:
 		return T{S: fmt.Sprintf("(select %s %s)", base.S, idx.S), Ty: u.Elem()}
 	case *types.Map:
@@ -454,6 +482,21 @@ func (e *specEnv) evalBin(s *SExpr) T {
 	case "!=":
 		return mkBool(not(eq(l.S, r.S)))
 	case "<", "<=", ">", ">=":
+		if l.Ty != nil && (isStringType(l.Ty) || isFloatType(l.Ty)) {
+			sn := e.x.d.sortOf(l.Ty)
+			fn := "lt_" + sn
+			e.x.d.declareFun(fn, []string{sn, sn}, "Bool")
+			switch s.Name {
+			case "<":
+				return mkBool(app(fn, l.S, r.S))
+			case ">":
+				return mkBool(app(fn, r.S, l.S))
+			case "<=":
+				return mkBool(not(app(fn, r.S, l.S)))
+			default:
+				return mkBool(not(app(fn, l.S, r.S)))
+			}
+		}
 		return mkBool(fmt.Sprintf("(%s %s %s)", s.Name, l.S, r.S))
 	case "+":
 		if l.Ty != nil && isStringType(l.Ty) {
@@ -533,6 +576,14 @@ func (e *specEnv) evalCall(s *SExpr) T {
 	}
 	if strings.HasPrefix(name, "@") {
 		return e.evalSpecFunc(name[1:], s.Args)
+	}
+	if strings.HasPrefix(name, "wrap_") && len(s.Args) == 1 {
+		return mkMath(app(name, e.eval(s.Args[0]).S))
+	}
+	if name == "rngFloat" && len(s.Args) == 2 {
+		// rngFloat(seed, k): the k-th Float64 draw of a generator seeded with seed
+		x.d.declareFun("rng_float", []string{"Int", "Int"}, "Flt")
+		return T{S: app("rng_float", e.eval(s.Args[0]).S, e.eval(s.Args[1]).S), Ty: types.Typ[types.Float64]}
 	}
 	// Go function usable in specs: inline contract or pure uninterpreted
 	if e.pkg != nil {
